@@ -8,7 +8,7 @@ namespace GunYu.Sender
 abbrev Cmd := Bytes × List Bytes
 
 def cmdOfReq : Req → Option Cmd
-  | .cmd n a => if n = bPing then none else some (n, a)
+  | .cmd n a _ => if n = bPing then none else some (n, a)
   | _ => none
 
 /-- commands (other than keep-alive pings) in a batch, in wire order -/
@@ -29,7 +29,7 @@ def qd (s : SState) : List Cmd := s.queue.filterMap itemCmd
 theorem dataB_append (a b : Batch) : dataB (a ++ b) = dataB a ++ dataB b := by simp [dataB]
 
 theorem dataB_cmds (q : List Item) :
-    dataB (q.map (fun i => Req.cmd i.cmd i.args)) = q.filterMap itemCmd := by
+    dataB (q.map (fun i => Req.cmd i.cmd i.args i.offset)) = q.filterMap itemCmd := by
   induction q with
   | nil => rfl
   | cons i q ih =>
